@@ -288,6 +288,8 @@ class Executor:
         self.solver = z3.Solver()
         self.solver.set("timeout", 20000)
         self.assumptions = []  # type-validity facts about symbolic inputs (enum discriminants in range)
+        self.models = []  # obligation-specific call models: (regex, fn(ex, st, callee, args, argvals, dest_ty) -> value)
+        self.on_call = None  # optional hook(ex, st, callee, depth) run at every call terminator (schedule points)
 
     # ---- place handling -------------------------------------------------------------
     PLACE_TOK = re.compile(r"\s*(\(|\)|\*|_\d+|\.\d+|\.\w+|as variant#\d+|as \w+|: )")
@@ -595,7 +597,7 @@ class Executor:
             self.write_place(st, lhs, t)
             return
         # enum variant / struct aggregates:  Path::Variant(args) | Path { f: v, .. } | Path::Variant
-        m = re.match(r"([\w:<>, &'\[\]()]+?)::(\w+)(?:\((.*)\))?$", rhs)
+        m = self._split_variant(rhs)
         if m and (m.group(2) in BUILTIN_VARIANTS or m.group(2) in self.enums.get(self._simple(m.group(1)), {})) and " as " not in rhs:
             vname = m.group(2)
             ename = self._simple(m.group(1))
@@ -666,6 +668,41 @@ class Executor:
             self.write_place(st, lhs, self.ctx.fresh(lty or "?", "opaque"))
             return
         raise Unsupported(f"rvalue not understood: {lhs} = {rhs[:120]}")
+
+    class _M:
+        def __init__(self, g):
+            self.g = g
+
+        def group(self, i):
+            return self.g[i]
+
+    def _split_variant(self, rhs):
+        """`path::Variant(args)` / `path::Variant` with arbitrary generics in `path` -> groups (0, path, Variant, args|None)"""
+        depth = 0
+        last = -1
+        i = 0
+        n = len(rhs)
+        while i < n:
+            c = rhs[i]
+            if c in "<([{":
+                depth += 1
+            elif c in ">)]}":
+                depth -= 1
+            elif depth == 0 and rhs.startswith("::", i):
+                last = i
+                i += 1
+            elif depth == 0 and c == " ":
+                return None
+            i += 1
+            if depth == 0 and last >= 0 and i < n and rhs[i] == "(":
+                break
+        if last < 0:
+            return None
+        path, rest = rhs[:last], rhs[last + 2 :]
+        vm = re.match(r"(\w+)(?:\((.*)\))?$", rest, re.S)
+        if not vm:
+            return None
+        return Executor._M([rhs, path, vm.group(1), vm.group(2)])
 
     def new_discr(self, st, a, ty):
         """fresh discriminant of an enum-typed place, constrained to the variants of its type"""
@@ -990,7 +1027,15 @@ class Executor:
                     argvals.append(None)
             rec = [callee, argvals, list(st.cond), None]
             st.calls.append(rec)
-            r = self.model_call(st, callee, args, dest_ty)
+            if self.on_call is not None:
+                self.on_call(self, st, callee, depth)
+            r = None
+            for pat, mf in self.models:
+                if re.search(pat, callee):
+                    r = mf(self, st, callee, args, argvals, dest_ty)
+                    break
+            if r is None:
+                r = self.model_call(st, callee, args, dest_ty)
             if r is not None:
                 rec[3] = r
                 self.write_place(st, dest, r)
